@@ -67,10 +67,11 @@ type Client struct {
 	Disconnects     int
 	DisconnectErr   string
 
-	View  *View
-	OnMsg func(*RecvMsg)
+	View   *View
+	OnMsg  func(*RecvMsg)
 	Stream []*streamItem
-	own   map[uint32]proto.Message // requests whose answer will tell the client what it changed
+	subs   map[uint32]bool          // component types the client subscribed to, by its own answered requests
+	own    map[uint32]proto.Message // requests whose answer will tell the client what it changed
 
 	mark int // index into Msgs: start of the current observation window
 }
